@@ -109,6 +109,7 @@ def finish(out):
                                 note='thorough tier only: up to 12 verdict queries per engine re-discharged with the cvc5 binary')
     cov['solver_seconds'] = round(st['solver_s'], 3)
     cov['functions_encoded'] = sorted(out.functions)
+    cov['functions_encoded_note'] = 'union of the functions named by the harness and the repository functions actually entered (sys.monitoring) in the worker processes'
     cov['bounds'] = out.bounds
     cov['outside_the_claim'] = out.outside
     cov['parts'] = out.parts
@@ -138,12 +139,41 @@ def finish(out):
 
 
 # -- sharding ---------------------------------------------------------------------------------------
+_ENTERED = set()
+
+
+def _trace_repo_functions():
+    """Records which functions of the repository are entered in this process (sys.monitoring, Python 3.12: every code
+    location reports once and is then disabled, so the cost is negligible)."""
+    mon = getattr(sys, 'monitoring', None)
+    if mon is None or getattr(_trace_repo_functions, 'on', False):
+        return
+    try:
+        mon.use_tool_id(3, 'vf-functions')
+    except ValueError:
+        return
+    prefix = REPO.rstrip('/') + '/'
+
+    def cb(code, offset):
+        fn = code.co_filename
+        if fn.startswith(prefix) and '_test' not in fn:
+            _ENTERED.add('%s:%s' % (fn[len(prefix):], code.co_qualname))
+        return mon.DISABLE
+    mon.register_callback(3, mon.events.PY_START, cb)
+    mon.set_events(3, mon.events.PY_START)
+    _trace_repo_functions.on = True
+
+
 def _worker(args):
     modname, fname, case = args
     try:
         import importlib
+        _trace_repo_functions()
         mod = importlib.import_module(modname)
-        return ('ok', getattr(mod, fname)(case))
+        r = getattr(mod, fname)(case)
+        if isinstance(r, dict):
+            r['functions'] = sorted(set(r.get('functions', [])) | {f for f in _ENTERED if '<' not in f.split(':')[1][:1]})
+        return ('ok', r)
     except BaseException as e:  # noqa
         return ('err', '%s: %s\n%s' % (type(e).__name__, e, traceback.format_exc()))
 
